@@ -180,7 +180,7 @@ DEFAULT_RUN = Contract(
     result_kind=BOOL,
     frame=["TestNode.should_rerun"],
     ghost_frame=["scan.calls", "scan.result"],
-    props=["C03", "C01", "C08", "C10"],
+    props=["C03", "C01", "C08", "C10", "C02"],   # C02: in a dry run nothing is executed (early_false)
 )
 
 
@@ -303,5 +303,5 @@ DEFAULT_CLEAN = Contract(
     ],
     result_kind=BOOL,
     frame=[],
-    props=["C05", "C08"],
+    props=["C05", "C08", "C02"],      # C02: in a dry run the clean decision is False (early_false): no state is changed
 )
